@@ -620,7 +620,7 @@ def _stratified(cases, keyf, rng, per_class):
 def run(tier):
     ck = c.Check("C15", tier)
     ck.rule = ("S->I: (a) residue pairs of TpGroup (<= 4 atoms from the names A-D, every connected bond graph, second residue also relisted, same / other "
-               "residue name, same molecule / other moleculetype) - distinct by the pair, non-trivial when both residues have >= 2 atoms; (b) every "
+               "residue name, same molecule / other moleculetype) - distinct by the pair, non-trivial when both residues have >= 2 atoms (TLC decides all pairs, the quick tier replays a stratified sample and counts only replayed ones); (b) every "
                "behaviour of Templates.tla (systems of 1-2 molecules over three contents, two of them with one residue name; build files = sequences of "
                "<= 3 distinct entries) - distinct by (system, build file), non-trivial when the build file is not empty; (c) the virtual-site cases of TpVS. "
                "I->S: one trace per seeded random system (2-5 residue types of 1-9 atoms, rings, branches, all virtual-site kinds, relisted residues, "
@@ -643,28 +643,30 @@ def run(tier):
             ("MC_Templates", "Tp_dev_VolLost.cfg", "UserVolumeWins", "finding %s (the code as it is)" % SIG_VOL),
             ("TpGroup", "Tp_dev_ByResname.cfg", "GroupingLaw", "grouping by residue name only"),
             ("TpVS", "Tp_dev_VSWeightSwap.cfg", "VSLaw", "virtual-site weights swapped")]
-    jobs = [("MC_Templates", "Templates_small.cfg" if quick else "Templates_full.cfg", {"workers": 3, "timeout": 3000}),
-            ("TpGroup", "Tp_group.cfg", {"workers": 3}),
-            ("MC_Templates", "Tp_export.cfg", {"workers": 2}),
-            ("MC_Templates", "Tp_export_code.cfg", {"workers": 2}),
-            ("TpVS", "Tp_vs.cfg", {"workers": 1})]
-    jobs += [(m, cfg, {"workers": 1, "check": False}) for m, cfg, _, _ in devs]
-    res = c.tlc_many(jobs, workers_each=2)
-    ck.model_must_hold(res[0], "Tagged/UserTemplateWins/UserVolumeWins/UserTemplateUnchanged/UserSticks")
-    ck.model_must_hold(res[1], "GroupingLaw/NamesLaw/CanonLaw/OrderLaw")
-    ck.model_must_hold(res[2], "precedence export")
-    ck.add_tlc(res[3])
-    ck.model_must_hold(res[4], "VSLaw/Equivariant/Handed")
-    for (m, cfg, inv, what), r in zip(devs, res[5:]):
-        ck.model_must_refute(r, inv, what)
+    # quick: the export run checks every law of Templates.tla on its instance, so it doubles as the model run
+    named = [("group", ("TpGroup", "Tp_group.cfg", {"workers": 3})),
+             ("export", ("MC_Templates", "Tp_export.cfg", {"workers": 3})),
+             ("export_code", ("MC_Templates", "Tp_export_code.cfg", {"workers": 2})),
+             ("vs", ("TpVS", "Tp_vs.cfg", {"workers": 1}))]
+    if not quick:
+        named.append(("full", ("MC_Templates", "Templates_full.cfg", {"workers": 4, "timeout": 3000})))
+    named += [("dev:" + cfg, (m, cfg, {"workers": 1, "check": False})) for m, cfg, _, _ in devs]
+    out = c.tlc_many([j for _, j in named], workers_each=2)
+    res = {n: r for (n, _), r in zip(named, out)}
+    ck.model_must_hold(res["group"], "GroupingLaw/NamesLaw/CanonLaw/OrderLaw")
+    ck.model_must_hold(res["export"], "Tagged/UserTemplateWins/UserVolumeWins/UserTemplateUnchanged/UserSticks + export")
+    ck.add_tlc(res["export_code"])
+    ck.model_must_hold(res["vs"], "VSLaw/Equivariant/Handed")
+    if not quick:
+        ck.model_must_hold(res["full"], "Tagged/UserTemplateWins/UserVolumeWins/UserTemplateUnchanged/UserSticks (larger instance)")
+    for m, cfg, inv, what in devs:
+        ck.model_must_refute(res["dev:" + cfg], inv, what)
     ck.extra["deviations_refuted"] = {cfg: inv for _, cfg, inv, _ in devs}
 
     ck.stage("S->I: grouping pairs")
-    gcases = res[1].cases()
+    gcases = res["group"].cases()
     if not gcases:
         raise c.MachineryError("TpGroup exported nothing")
-    for x in gcases:
-        ck.nontrivial.add("g" + json.dumps([x["x"], x["y"], x["rny"], x["joined"]])) if x["x"]["n"] >= 2 and x["y"]["n"] >= 2 else None
     ck.extra["grouping_pairs_decided_by_TLC"] = len(gcases)
     if quick:
         def cls(x):
@@ -673,16 +675,16 @@ def run(tier):
     else:
         gsel = gcases
     ck.extra["grouping_pairs_replayed"] = len(gsel)
+    for x in gsel:
+        ck.nontrivial.add("g" + json.dumps([x["x"], x["y"], x["rny"], x["joined"]])) if x["x"]["n"] >= 2 and x["y"]["n"] >= 2 else None
     ck.sample({"S->I grouping pair": next(x for x in gsel if x["same"] and x["x"]["n"] == 4 and x["x"]["nm"] != x["y"]["nm"])})
     replay_cases(ck, "group", gsel)
 
     ck.stage("S->I: precedence behaviours")
-    pcases = res[2].cases()
-    code_cases = {case_key(x): x for x in res[3].cases()}
+    pcases = res["export"].cases()
+    code_cases = {case_key(x): x for x in res["export_code"].cases()}
     if not pcases or len(code_cases) != len(pcases):
         raise c.MachineryError("precedence exports disagree in size: %d vs %d" % (len(pcases), len(code_cases)))
-    for x in pcases:
-        ck.nontrivial.add("p" + case_key(x)) if x["bld"] else None
     ndev = sum(1 for x in pcases if expected_proj(x) != expected_proj(code_cases[case_key(x)]))
     ck.extra["precedence_behaviours_decided_by_TLC"] = len(pcases)
     ck.extra["precedence_behaviours_where_code_model_deviates"] = ndev
@@ -694,13 +696,15 @@ def run(tier):
     else:
         psel = pcases
     ck.extra["precedence_behaviours_replayed"] = len(psel)
+    for x in psel:
+        ck.nontrivial.add("p" + case_key(x)) if x["bld"] else None
     ck.sample({"S->I precedence case": {k: next(x for x in psel if len(x["bld"]) == 3)[k] for k in ("sys", "bld", "keys", "tags")}})
     replay_cases(ck, "prec", psel, code_cases)
     if ndev and not known:
         ck.note("finding %s is not listed as known: its cases are reported as violations" % SIG_VOL)
 
     ck.stage("S->I: virtual sites")
-    vcases = res[4].cases()
+    vcases = res["vs"].cases()
     for x in vcases:
         ck.nontrivial.add("v" + json.dumps([x["kind"], x["x"], x["p"]]))
     ck.sample({"S->I virtual-site case": next(x for x in vcases if x["kind"] == "3out" and x["p"][2][0] != 0)})
